@@ -357,7 +357,7 @@ class FilterbankBlock(BaseBlock):
                 f"{self.header.basename}_{self.header.tstart:.12f}_"
                 f"to_{mjd_after:.12f}.fil"
             )
-        updates = {"nbits": 32}
+        updates = {"nbits": 32, "dm": self.dm}
         out_file = self.header.prep_outfile(filename, updates=updates, nbits=32)
         out_file.cwrite(self.data.transpose().ravel())
         return filename
